@@ -327,6 +327,40 @@ for c, o in zip(pending, outs):
             chk.violation("A:order-dependence", "the result depends on the timetrace order or on non-pulse-echo values",
                           dict(replay, tx2=tx[perm], rx2=rx[perm], distance_to_surface2=ds2[perm], second=impl2.get("locs"),
                                second_error=impl2["err"]))
+    # --- HISTORY: the same Probe object, already registered (tilted), is given a new reference element, reset
+    #     and registered again on a new data set: it must end at the new true pose like a fresh probe
+    if expect_ok and not c["noisy"] and impl["err"] is None and rng.random() < 0.35:
+        probe = c["probe"]
+        live = [k for k in range(n) if not c["dead"][k]]
+        newref = int(rng.choice(live)) if rng.random() < 0.7 else str(rng.choice(["first", "last", "mean"]))
+        x_ref = {"first": xs_pcs[0, 0], "last": xs_pcs[-1, 0], "mean": float(np.mean(xs_pcs[:, 0]))}.get(newref, None)
+        x_ref = float(xs_pcs[newref, 0]) if x_ref is None else float(x_ref)
+        xs2 = xs_pcs[:, 0] - x_ref                      # abscissae in the re-referenced probe frame (computed without arim)
+        err2 = None
+        try:
+            probe.set_reference_element(newref)
+            probe.reset_position()
+        except Exception as e:      # noqa: BLE001
+            err2 = classify(e)
+        th2 = math.radians(float(rng.uniform(-40.0, 40.0)))
+        z2 = -(float(rng.uniform(0.5e-3, 60e-3)) + (float(np.max(np.abs(xs2))) + 1e-4) * abs(math.sin(th2)))
+        P2z = -math.sin(th2) * xs2 + z2
+        ds2 = garbage(len(tx))
+        ds2[c["usable"]] = -P2z[tx[c["usable"]]]
+        impl2 = run_impl_move(probe, tx, rx, ds2) if err2 is None else {"err": err2}
+        evaluations += 1
+        chk.count(A_history="registered, re-referenced, reset, registered again")
+        rep2 = dict(replay, history=["move_probe_over_flat_surface(distance_to_surface)", f"set_reference_element({newref!r})",
+                                     "reset_position()", "move_probe_over_flat_surface(distance_to_surface_2)"],
+                    distance_to_surface_2=ds2, true_theta_2=th2, true_z_o_2=z2, second_error=impl2["err"])
+        sc2 = float(max(np.max(np.abs(xs2)), abs(z2), 1e-3))
+        if impl2["err"] is not None:
+            chk.violation("A:history-rejects", f"a probe registered once cannot be registered again after set_reference_element + "
+                          f"reset_position ({impl2['err']})", rep2)
+        elif differ(impl2["locs"][:, 2], P2z, sc2) or differ(impl2["z_o"], z2, sc2) or differ(impl2["theta"], th2, 1.0) \
+                or differ(impl2["locs_pcs"][:, 0], xs2, sc2):
+            chk.violation("A:history-pose", "second registration of the same probe object does not recover the true pose",
+                          dict(rep2, impl_z_o=impl2["z_o"], impl_theta=impl2["theta"], impl_z=impl2["locs"][:, 2], true_z=P2z))
     if len(samples) < 2 and expect_ok and not c["noisy"] and impl["err"] is None:
         samples.append({"move_probe": {"n": n, "layout": c["layout"], "reference": str(c["ref"]), "true_theta": th,
                                        "true_z_o": z0, "impl_theta": impl["theta"], "impl_z_o": impl["z_o"],
@@ -644,8 +678,18 @@ for it in range(num_det):
     if tmin is not None and tmax is not None and ((tmin > tmax) != (it % 9 == 0)):
         tmin, tmax = tmax, tmin   # mostly ordered; every ninth case a reversed window (empty)
     m = int(rng.integers(1, 5))
-    vstyle = int(rng.integers(0, 3))
-    if vstyle == 0:
+    vstyle = int(rng.integers(0, 4))
+    store = None
+    if vstyle == 3:
+        # raw acquisition data: integer samples of full dynamic range stored as int8 / int16 / int32
+        store = [np.int8, np.int16, np.int32][int(rng.integers(0, 3))]
+        top = {np.int8: 127, np.int16: 32767, np.int32: 2 ** 31 - 1}[store]
+        tt = rng.integers(-top // 3, top // 3 + 1, size=(m, num)).astype(float)
+        if num > 1:
+            i0, i1 = rng.integers(0, num, size=2)
+            tt[0, i0] = -float(top - int(rng.integers(0, 3)))
+            tt[-1, i1] = float(top) if rng.random() < 0.5 else tt[-1, i1]
+    elif vstyle == 0:
         tt = rng.integers(-3, 4, size=(m, num)).astype(float)          # many ties of |value|
     elif vstyle == 1:
         tt = rng.choice([-2.5, 2.5, 1.0, -1.0, 0.0, -0.0], size=(m, num))
@@ -656,7 +700,8 @@ for it in range(num_det):
             tt[0, i0] = -5.0
             tt[0, i1] = 5.0 if rng.random() < 0.5 else tt[0, i1]
     pairs = [(0, 0), (0, 1), (1, 1), (2, 1)][:m]
-    frame = arim.Frame(tt, time, np.array([p[0] for p in pairs]), np.array([p[1] for p in pairs]), probe3, EXAM)
+    frame = arim.Frame(tt if store is None else tt.astype(store), time, np.array([p[0] for p in pairs]),
+                       np.array([p[1] for p in pairs]), probe3, EXAM)
     try:
         res = [float(v) for v in reg.detect_surface_from_extrema(frame, tmin, tmax)]
         assert len(res) == m
@@ -668,9 +713,10 @@ for it in range(num_det):
     spec = [brute_detect(st, tt[i], tmin, tmax) for i in range(m)]
     spec = None if any(s is None for s in spec) else spec
     empty = spec is None
-    chk.count(C_detect=("empty-window" if empty else "ties" if vstyle < 2 else "random"),
+    chk.count(C_detect=("empty-window" if empty else "ties" if vstyle < 2 else "random" if vstyle == 2 else f"integer samples ({np.dtype(store).name})"),
               C_bounds=("none" if tmin is None and tmax is None else "half" if tmin is None or tmax is None else "both"))
-    replay = {"fn": "detect_surface_from_extrema", "time": [start, step, num], "tmin": tmin, "tmax": tmax, "timetraces": tt}
+    replay = {"fn": "detect_surface_from_extrema", "time": [start, step, num], "tmin": tmin, "tmax": tmax, "timetraces": tt,
+              "stored_dtype": "float64" if store is None else np.dtype(store).name}
     if res != spec:
         chk.violation("C:detect-spec", "detect_surface_from_extrema is not the first largest |sample| inside [tmin, tmax]",
                       dict(replay, impl=res, spec=spec))
